@@ -43,6 +43,7 @@ pub fn dispatch(req: &Value) -> Value {
         "relations" => op_relations(req),
         "total" => op_total(req),
         "ext" => op_ext(req),
+        "typed_doc" => op_typed_doc(req),
         "derive" => op_derive(req),
         "derive_both" => {
             let mut a = req.clone(); a["backend"] = json!("lossy");
@@ -630,4 +631,33 @@ fn op_derive(req: &Value) -> Value {
         "aptsources::::Repository" => derive_both!(req, apt_sources::Repository),
         other => json!({"error": format!("unknown struct {}", other)}),
     }
+}
+
+macro_rules! doc_rt {
+    ($ty:ty, $t:expr) => {
+        match <$ty as FromStr>::from_str($t) {
+            Ok(v) => { let t2 = v.to_string(); match <$ty as FromStr>::from_str(&t2) { Ok(v2) => json!({"ok": true, "text2": t2, "re_ok": true, "text3": v2.to_string()}), Err(e) => json!({"ok": true, "text2": t2, "re_ok": false, "re_err": e.to_string()}) } }
+            Err(e) => json!({"ok": false, "err": e.to_string()}),
+        }
+    };
+}
+/// C20: typed lossy documents: parse, print, reparse, print again; plus the lossless view of the input and of the printed text
+fn op_typed_doc(req: &Value) -> Value {
+    use debian_control::lossy as dl;
+    let t = s(req, "s"); let t = t.as_str();
+    let r = guarded(|| match req["type"].as_str().unwrap_or("") {
+        "control::lossy::Control::from_str" => doc_rt!(dl::Control, t),
+        "control::lossy::apt::Source::from_str" => doc_rt!(dl::apt::Source, t),
+        "control::lossy::apt::Package::from_str" => doc_rt!(dl::apt::Package, t),
+        "copyright::lossy::Copyright::from_str" => doc_rt!(debian_copyright::lossy::Copyright, t),
+        "dep3::lossy::PatchHeader::from_str" => doc_rt!(dep3::lossy::PatchHeader, t),
+        "aptsources::Repositories::from_str" => doc_rt!(apt_sources::Repositories, t),
+        "control::lossy::buildinfo::Buildinfo::from_str" => okerr(dl::buildinfo::Buildinfo::from_str(t)),
+        "control::lossy::ftpmaster::Removal::from_str" => okerr(dl::ftpmaster::Removal::from_str(t)),
+        other => json!({"error": format!("unknown typed document {}", other)}),
+    });
+    let view = |x: &str| guarded(|| match deb822_lossless::Deb822::from_str(x) { Ok(d) => json!({"ok": true, "paras": paras_lossless(&d)}), Err(e) => json!({"ok": false, "err": e.to_string()}) });
+    let l1 = view(t);
+    let l2 = match r["text2"].as_str() { Some(t2) => view(t2), None => Value::Null };
+    json!({"typed": r, "lossless": l1, "lossless2": l2})
 }
